@@ -87,7 +87,7 @@ def scalar_of_vec(v):
     return v @ A1 + 0.25 * (v @ A2) ** 2
 
 
-def make_sampler(kind, region=None, psi_anchor=None):
+def make_sampler(kind, region=None, psi_anchor=None, infband=None):
     """region = None or (lo, hi) in units of the unit square's column coordinate u in [0, 1): the sampler is undefined
     outside.  The column coordinate of a sphere point is not available to a sampler, so masked samplers use a
     longitude band instead (chosen to correspond to TLC's column bands only in spirit: what matters is that the two
@@ -102,6 +102,10 @@ def make_sampler(kind, region=None, psi_anchor=None):
             out[..., 2] = np.clip(np.round(127.5 + 127 * v[..., 2]), 0, 255)
             return out
         val = val.astype(np.float64)
+        if infband is not None:
+            # a band of longitudes where the map is infinite (log of zero flux, 1/x ...): defined values, not missing ones
+            l = np.asarray(lon) % (2 * np.pi)
+            val = np.where((l >= infband[0]) & (l < infband[1]), np.where(v[..., 2] > 0, np.inf, -np.inf), val)
         if region is not None:
             l = np.asarray(lon) % (2 * np.pi)
             inside = (l >= region[0]) & (l < region[1])
@@ -143,7 +147,7 @@ def expected_leafset(depth, accept):
     return reach
 
 
-def judge_dir(ctx, label, key, d, fmt, depth, cs, psi, kind, regions, mode, accept, leaves_from_tlc=None):
+def judge_dir(ctx, label, key, d, fmt, depth, cs, psi, kind, regions, mode, accept, leaves_from_tlc=None, infband=None):
     """Compare every tile file of a finished sampling run with the specification."""
     from toasty import toast
     from toasty.pyramid import Pos
@@ -173,8 +177,10 @@ def judge_dir(ctx, label, key, d, fmt, depth, cs, psi, kind, regions, mode, acce
             defined = np.ones((256, 256), bool)
         else:
             lon_psi, lat_psi = lattice.vec_to_lonlat(g)
-            exp_psi = scalar_of_vec(g)
-            exp_real = make_sampler("scalar")(rl, rt)
+            exp_psi = make_sampler("scalar", infband=infband)(lon_psi, lat_psi) if infband is not None else scalar_of_vec(g)
+            exp_real = make_sampler("scalar", infband=infband)(rl, rt)
+            if infband is not None and np.isinf(exp_real).all():
+                ctx.add_note("leaf_tiles_entirely_infinite")
             if regions is None:
                 defined = np.ones((256, 256), bool)
             else:
@@ -205,18 +211,25 @@ def judge_dir(ctx, label, key, d, fmt, depth, cs, psi, kind, regions, mode, acce
             err_psi = np.abs(data - exp_psi)[dm].max()
             bad = err_real > 0 or err_psi > 1.0
         else:
-            und = ~np.isfinite(data)
+            und = np.isnan(data)
             if (und != ~defined).any():
                 k = int((und != ~defined).sum())
                 ctx.violation(key + ":defined-mask", "%s: tile %s: %d pixels are defined/undefined contrary to the sampler (update must keep defined pixels, never store undefined over them)" % (label, pos, k), dict(rep, pos=pos))
                 continue
             tol_store = 1e-6 if fmt == "fits" or data.dtype == np.float32 else 0.0
-            err_real = float(np.abs(data - exp_real)[defined].max())
-            err_psi = float(np.abs(data - exp_psi)[defined].max())
+            with np.errstate(invalid="ignore"):
+                d_real = np.where(data == exp_real, 0.0, np.abs(data - exp_real))
+                # psi and the real grid may fall on different sides of the band's edge for a pixel within rounding of it
+                d_psi = np.where((data == exp_psi) | np.isinf(data) | np.isinf(exp_psi), 0.0, np.abs(data - exp_psi))
+            d_real = np.where(np.isnan(d_real), np.inf, d_real)
+            err_real = float(d_real[defined].max())
+            err_psi = float(d_psi[defined].max())
             bad = err_real > tol_store or err_psi > 1e-9 + tol_store
         worst = max(worst, float(err_psi))
         if bad:
-            dd = np.abs(data - exp_real)
+            with np.errstate(invalid="ignore"):
+                dd = np.where(data == exp_real, 0.0, np.abs(data - exp_real))
+            dd = np.where(np.isnan(dd), np.inf, dd)
             if kind == "rgb":
                 dd = dd.max(axis=-1)
             r, c = np.unravel_index(np.nanargmax(np.where(defined, dd, -1)), (256, 256))
@@ -275,6 +288,13 @@ def run(ctx):
              dict(entry="filtered", cs="astronomical", depth=2, fmt="npy", kind="scalar", mode="update", regions=[(1.0, 2.0)], accept=sparse, par=1),
              dict(entry="filtered", cs="astronomical", depth=2, fmt="fits", kind="scalar", mode="update", regions=None, accept=sparse2, par=1),
              dict(entry="toast_base", cs="planetary", depth=1, fmt="npy", kind="scalar", mode="clobber", regions=None, accept=None, par=1),
+             # the Builder route with a tile filter (the updating mode of toast_base), coordinate system given either way
+             dict(entry="toast_base", cs="planetary", depth=2, fmt="npy", kind="scalar", mode="update", regions=None, accept=sparse2, par=1),
+             dict(entry="toast_base", cs="planetary", depth=1, fmt="fits", kind="scalar", mode="update", regions=None, accept={(1, 1, 0), (1, 0, 1)}, par=1, is_planet=True),
+             dict(entry="toast_base", cs="astronomical", depth=2, fmt="npy", kind="scalar", mode="update", regions=[(0, B), (B, 7.0)], accept=sparse, par=1),
+             # a map that is infinite over whole tiles: infinities are values of the sampler, the tiles exist and hold them
+             dict(entry="sample_layer", cs="astronomical", depth=2, fmt="npy", kind="scalar", mode="clobber", regions=None, accept=None, par=1, infband=(0.7, 2.9)),
+             dict(entry="sample_layer", cs="planetary", depth=2, fmt="fits", kind="scalar", mode="clobber", regions=None, accept=None, par="sim2", infband=(3.3, 5.6)),
              # clobbering re-sample into a directory that already holds tiles: tiles the second sampler leaves entirely
              # undefined must disappear, the others must hold only the second sampler's values
              dict(entry="sample_layer", cs="astronomical", depth=2, fmt="npy", kind="scalar", mode="clobber", regions=[(0, 7.0), (1.0, 2.0)], accept=None, par=1),
@@ -306,14 +326,17 @@ def run(ctx):
         def body(rn=rn, d=d, cs=cs, passes=passes, acc=acc, parallel=1):
             pio = pyramid.PyramidIO(d, default_format=rn.get("piofmt", rn["fmt"]))
             for reg in passes:
-                sampler = make_sampler(rn["kind"], reg)
+                sampler = make_sampler(rn["kind"], reg, infband=rn.get("infband"))
                 if rn["entry"] == "sample_layer" and "piofmt" in rn:
                     # the documented format= override: tiles in rn["fmt"] although the pyramid's default format differs
                     toast.sample_layer(pio, sampler, rn["depth"], coordsys=cs, format=rn["fmt"], parallel=parallel)
                 elif rn["entry"] == "sample_layer":
                     toast.sample_layer(pio, sampler, rn["depth"], coordsys=cs, parallel=parallel)
                 elif rn["entry"] == "toast_base":
-                    builder.Builder(pio).toast_base(sampler, rn["depth"], coordsys=cs, parallel=parallel)
+                    kw = dict(is_planet=True) if rn.get("is_planet") else dict(coordsys=cs)
+                    if acc is not None or rn["mode"] == "update":
+                        kw["tile_filter"] = (lambda t: True) if acc is None else (lambda t: tuple(t.pos) in acc)
+                    builder.Builder(pio).toast_base(sampler, rn["depth"], parallel=parallel, **kw)
                 else:
                     flt = (lambda t: True) if acc is None else (lambda t: tuple(t.pos) in acc)
                     toast.sample_layer_filtered(pio, flt, sampler, rn["depth"], coordsys=cs, parallel=parallel)
@@ -337,7 +360,7 @@ def run(ctx):
             ctx.violation(key + ":raises", "%s raised %r" % (label, e), {"run": label})
             continue
         w = judge_dir(ctx, label, key, d, rn["fmt"], rn["depth"], cs, psi, rn["kind"], rn["regions"], rn["mode"], acc,
-                      tlc_leafsets.get((rn["depth"], frozenset(acc))) if acc is not None and rn["regions"] is None else None)
+                      tlc_leafsets.get((rn["depth"], frozenset(acc))) if acc is not None and rn["regions"] is None else None, infband=rn.get("infband"))
         worst = max(worst, w)
         ctx.trace_ok()
     ctx.note("worst_deviation_from_psi", worst)
